@@ -292,9 +292,11 @@ pub fn stmt(s: &ast::Stmt) -> R {
             Ok(format!("(alias {} {})", name.string(), opt_expr(a.expr(), "alias value")?))
         }
         ast::Stmt::AssignmentStmt(a) => {
+            // as a user of the accessors reads it: `identifier()` is the assigned name when the
+            // target is a plain identifier, otherwise `indexed_identifier()` is the target
             let target = match (a.identifier(), a.indexed_identifier()) {
-                (_, Some(ii)) => indexed_identifier(&ii)?,
-                (Some(i), None) => format!("(id {})", i.string()),
+                (Some(i), _) => format!("(id {})", i.string()),
+                (None, Some(ii)) => indexed_identifier(&ii)?,
                 (None, None) => return Err(missing("assignment target")),
             };
             Ok(format!("(assign = {} {})", target, opt_expr(a.rhs(), "assignment value")?))
